@@ -121,8 +121,9 @@ def write_and_load(cfg, workdir, tid):
     d = os.path.join(workdir, "w%d" % tid)
     kw = {}
     if opts["labelled"]:
-        kw["class_label"] = [l[0] for l in labels]
-        kw["class_value_list"] = [c["lab"][0] for c in panel]
+        num = all(l[0].isdigit() for l in labels)      # numeric label sets are passed as integers
+        kw["class_label"] = [int(l[0]) if num else l[0] for l in labels]
+        kw["class_value_list"] = [int(c["lab"][0]) if num else c["lab"][0] for c in panel]
     if opts["equal"]:
         kw["equal_length"] = True
         kw["series_length"] = len(panel[0]["vals"])
